@@ -51,8 +51,8 @@ type StreamOpts struct {
 	NoEmpty    bool // no zero-length fragments
 	UseZlib    bool
 	JSON       bool // make some text messages JSON documents
-	CtlDen     int // a control frame is inserted with probability 1/CtlDen at each slot (default 4)
-	Reason     int // -1 = draw; otherwise the close reason length
+	CtlDen     int  // a control frame is inserted with probability 1/CtlDen at each slot (default 4)
+	Reason     int  // -1 = draw; otherwise the close reason length
 	HasReason  bool
 }
 
